@@ -9,7 +9,7 @@ import ipaddress
 
 from semlib import L, nm, name, lab, txt, net, svcb, query, SVCB_PARAMS
 
-LABELS = ["a", "bb", "c-1", "d_2", "x9", "www", "a!", "q"]      # "a!" is not wild-safe
+LABELS = ["a", "bb", "c-1", "d_2", "x9", "www", "a!", "q", "\xc3\x89x", "\x8dz"]      # "a!" is not wild-safe; E-acute (upper case) and a lone 0x8d: bytes, not text
 QTYPES = [1, 28, 2, 15, 16, 5, 6, 33, 12, 65, 64, 65280]
 T_A, T_AAAA = 1, 28
 
